@@ -21,6 +21,8 @@ choices.bind()
 
 def _fps(cfg):
     """the fingerprint alphabet of a configuration"""
+    if cfg.get("fps"):
+        return list(cfg["fps"])
     cap, bs = cfg["capacity"], cfg["bucket"]
     n = cfg.get("nfp") or (2 * cap * bs + 2)
     if cfg["alt"] == "pair":
@@ -63,6 +65,8 @@ def make_hash(cfg):
 
         nbits = math.ceil(math.log2(1.0 / cfg["by_rate"]) + math.log2(cfg["bucket"]) + 1)
         junk = 0b1011 << nbits
+    if cfg.get("rate_from_object"):
+        junk = 0b1011 << 8  # the object uses 1-byte fingerprints
 
     def table_hash(key, *args):
         if isinstance(key, bytes):
@@ -144,6 +148,26 @@ class CuckooSystem(System):
             for cap, bs, alt in ((1, 2, "other"), (2, 1, "pair"), (2, 2, "other")):
                 cfgs.append(dict(cls=cls, capacity=cap, bucket=bs, swaps=2, auto=True, alt=alt, nfp=2 * cap * bs + 2, setters=True,
                                  depth=cap * bs + 4, budget=budget, cost=budget))
+            # ---- scale-up ("corridor") configurations: ordinary larger shapes along a narrow menu (add the next key, remove the
+            # oldest, reload; all random resolutions still enumerated)
+            # wide buckets (slots 4, 5 are only reachable with bucket_size >= 5; 3 is not a power of two)
+            for cap, bs, sw in ((2, 5, 2), (1, 6, 3), (2, 3, 3)):
+                cfgs.append(dict(cls=cls, capacity=cap, bucket=bs, swaps=sw, auto=False, alt="other", nfp=cap * bs + 3, corridor=True,
+                                 depth=cap * bs + 5, budget=budget, cost=budget))
+            # tables longer than 4096 bytes / 1024 bins / a capacity that is a multiple of 256, default hash, a few keys
+            for cap, bs in ((350, 3), (256, 1), (600, 2)):
+                cfgs.append(dict(cls=cls, capacity=cap, bucket=bs, swaps=2, auto=True, alt="fnv", nfp=5, corridor=True, depth=6,
+                                 prefix=f"b{seed}k", budget=min(budget, 4000), cost=budget))
+            # a count above 65535 (one key added 65537 times in one event), then reloads / removes
+            if cls == "counting":
+                cfgs.append(dict(cls=cls, capacity=2, bucket=2, swaps=2, auto=True, alt="other", nfp=3, many=65537, depth=4,
+                                 budget=min(budget, 3000), cost=budget))
+            # 2-byte fingerprints whose zero bytes line up across neighbouring slots of one bucket
+            cfgs.append(dict(cls=cls, capacity=1, bucket=3, swaps=1, auto=False, alt="same", finger=2,
+                             fps=[0x0040, 0x3A00, 0x0100, 0x0001], depth=5, budget=budget, cost=budget))
+            # fingerprint width given in bytes, bucket size not a power of two, reloaded with the error rate the object reports
+            cfgs.append(dict(cls=cls, capacity=2, bucket=3, swaps=2, auto=True, alt="other", nfp=5, rate_from_object=True, depth=5,
+                             budget=budget, cost=budget))
             # keys whose raw fingerprint is 0 (0 is the empty-slot marker of the export)
             for cap, bs, auto, alt in ((2, 2, True, "other"), (3, 1, True, "other"), (3, 2, False, "other"), (1, 2, True, "other"),
                                        (3, 1, True, "pair")):
@@ -175,14 +199,24 @@ class CuckooSystem(System):
             max_swaps=cfg["swaps"],
             expansion_rate=2,
             auto_expand=cfg["auto"],
-            finger_size=1,
+            finger_size=cfg.get("finger", 1),
             hash_function=make_hash(cfg),
         )
         return State(f, {"fp": {}, "cap": cfg["capacity"]})
 
     def events(self, cfg, st):
         keys = _keys(cfg)
+        if cfg.get("corridor"):
+            live = [i for i, (_, fp) in enumerate(keys) if fp in st.model["fp"]]
+            nxt = [i for i, (_, fp) in enumerate(keys) if fp not in st.model["fp"]]
+            evs = [("add", nxt[0])] if nxt else []
+            if live:
+                evs += [("remove", live[0]), ("add", live[-1])]
+            evs.append(("reload",))
+            return evs
         evs = [("add", i) for i in range(len(keys))]
+        if cfg.get("many"):
+            evs.append(("add_many", 0, cfg["many"]))
         evs += [("remove", i) for i in range(len(keys))]
         if st.impl.capacity < cfg["capacity"] * 4 or (cfg.get("setters") and st.impl.capacity < cfg["capacity"] * 9):
             evs.append(("expand",))
@@ -219,19 +253,29 @@ class CuckooSystem(System):
                         m["fp"][fp] -= 1
                         if m["fp"][fp] <= 0:
                             del m["fp"][fp]
+            elif ev[0] == "add_many":
+                key, fp = keys[ev[1]]
+
+                def bulk():
+                    for _ in range(ev[2]):
+                        f.add(key)
+
+                obs = call(bulk)
+                if obs[0] == "ok":
+                    m["fp"][fp] = m["fp"].get(fp, 0) + ev[2]
             elif ev[0] == "set_auto":
                 obs = call(setattr, f, "auto_expand", ev[1])
             elif ev[0] == "set_rate":
                 obs = call(setattr, f, "expansion_rate", ev[1])
             elif ev[0] == "reload":
-                er = cfg.get("by_rate")
+                er = cfg.get("by_rate") or (f.error_rate if cfg.get("rate_from_object") else None)
                 hf = make_hash(cfg)
                 cls = _cls(cfg)
                 r = call(lambda: cls.frombytes(bytes(f), error_rate=er, hash_function=hf) if er else cls.frombytes(bytes(f), hash_function=hf))
                 if r[0] == "ok":
                     g = r[1]
                     if not er:
-                        g.fingerprint_size = 1
+                        g.fingerprint_size = cfg.get("finger", 1)
                     g.expansion_rate = f.expansion_rate
                     g.auto_expand = f.auto_expand
                     st.impl = f = g
@@ -472,11 +516,11 @@ class CuckooSystem(System):
         ref = self._observe(f, counting, keys)
         loaders = []
 
-        er = cfg.get("by_rate")
+        er = cfg.get("by_rate") or (f.error_rate if cfg.get("rate_from_object") else None)
 
         def fix(g):
             if not er:
-                g.fingerprint_size = 1  # the fingerprint width is not stored: re-supplied the way the object was built
+                g.fingerprint_size = cfg.get("finger", 1)  # the fingerprint width is not stored: re-supplied the way the object was built
             g.expansion_rate = f.expansion_rate
             g.auto_expand = f.auto_expand
             return g
@@ -589,7 +633,7 @@ class CuckooSystem(System):
         if bb0[0] == "ok" and not cfg.get("by_rate"):
             fl = call(lambda: _cls(cfg).frombytes(bb0[1], hash_function=make_hash(cfg)))
             if fl[0] == "ok":
-                fl[1].fingerprint_size = max(1, f.fingerprint_size)
+                fl[1].fingerprint_size = max(1, f.fingerprint_size)  # (bytes)
                 probes = [k for k, _ in keys] + ["never-added"]
                 a1 = [call(f.check, k) for k in probes] + [call(f.load_factor)]
                 a2 = [call(fl[1].check, k) for k in probes] + [call(fl[1].load_factor)]
